@@ -450,6 +450,40 @@ def check_stats_and_order(run):
         if ok:
             extra = [a for a in conjuncts(hits[0][1]) if a != ("present", (sp,)) and not (a[0] == "bit" or (a[0] == "not" and a[1][0] == "bit")) and a[0] != "or"]
             ok = ("present", (sp,)) in conjuncts(hits[0][1]) and not extra
+        elif len(hits) > 1 and all(path(h[2]) == (sp,) and ("present", (sp,)) in conjuncts(h[1]) for h in hits):
+            # several sites (an early exit that takes the statistics over as well): they have to be mutually exclusive and
+            # together cover every path past the storage gate - decided by a truth table over the atoms of their guards
+            import itertools as _it
+            res = [ir.f_and(*[a for a in conjuncts(h[1]) if a != ("present", (sp,))]) if [a for a in conjuncts(h[1]) if a != ("present", (sp,))] else ("T",) for h in hits]
+            atoms = []
+            for r_ in res:
+                for a in ir.walk_formula(r_):
+                    if a not in atoms:
+                        atoms.append(a)
+            gate = [a for a in atoms if a[0] == "bit"]
+
+            def evf(f_, val):
+                h_ = f_[0]
+                if h_ == "T":
+                    return True
+                if h_ == "F":
+                    return False
+                if h_ == "not":
+                    return not evf(f_[1], val)
+                if h_ == "and":
+                    return all(evf(x, val) for x in f_[1:])
+                if h_ == "or":
+                    return any(evf(x, val) for x in f_[1:])
+                return val[f_]
+            ok = len(atoms) <= 14
+            if ok:
+                for combo in _it.product((False, True), repeat=len(atoms)):
+                    val = dict(zip(atoms, combo))
+                    n_true = sum(1 for r_ in res if evf(r_, val))
+                    want = 1 if all(val[a] for a in gate) else 0
+                    if n_true != want:
+                        ok = False
+                        break
         run.ob("R01.7", tag + ":latest-statistics", ok, f, hits[0][0].get("l", f["line"]) if hits else f["line"],
                "the statistics handed in with the record replace the block's statistics whenever they are supplied" if ok else
                "block statistics must be overwritten exactly when the caller supplies them (guard found: %s)" % (show_f(hits[0][1]) if hits else "no assignment"))
